@@ -5,6 +5,7 @@ import Mathlib.Data.List.Forall2
 import Skc.Model.Pipeline
 set_option linter.unusedSectionVars false
 set_option linter.unusedVariables false
+set_option linter.unusedSimpArgs false
 
 /-! Helper lemmas for C16, part 3: constructors, `get_parameters`, `copy`. -/
 namespace Skc.Pipeline
